@@ -40,7 +40,7 @@ ASSUMPTIONS = [
     'library writes); recency after overwriting a present key is unspecified',
 ]
 REQUIRED = [
-    'trees', 'histories', 'hist_fn_bound_128', 'hist_obj_bound_1024', 'hist_reduced_bound',
+    'directed_cases', 'trees', 'histories', 'hist_fn_bound_128', 'hist_obj_bound_1024', 'hist_reduced_bound',
     'value_checks', 'counter_checks', 'cache_info_checks', 'object_info_checks',
     'lru_invariant_checks', 'lru_order_checks', 'identity_checks', 'pickle_roundtrips',
     'pickle_eq_checks', 'deref_checks', 'missing_error_checks', 'both_flags_rejected',
@@ -54,7 +54,7 @@ CHUNK_TIMEOUT_S = {'quick': 240, 'thorough': 3000}
 
 
 def plan(tier, seed):
-  specs = []
+  specs = [{'mode': 'directed', 'index': 0, 'count': 0, 'rseed': seed}]
   if tier == 'quick':
     tree_chunks, per_tree = 8, 260
     hist = [('hist_fn', 6, 5), ('hist_obj', 4, 3), ('hist_small', 6, 9)]
@@ -89,6 +89,8 @@ def gen_case(gen):
   kind = gen[3]
   if kind == 'tree':
     return _gen_tree_case(rng, M)
+  if kind == 'directed':
+    return _directed_cases()[gen[2]]
   if kind == 'hist_fn':
     return _gen_hist(rng, M, fn_bound=128, obj_bound=1024, focus='fn')
   if kind == 'hist_obj':
@@ -97,6 +99,39 @@ def gen_case(gen):
     return _gen_hist(rng, M, fn_bound=rng.randint(2, 12), obj_bound=rng.randint(2, 12),
                      focus='small')
   raise ValueError(kind)
+
+
+def _directed_cases():
+  """Literal histories for input classes the random generator reaches only rarely."""
+  B = {'fn': 128, 'obj': 1024}
+  c = lambda v: ('c', v)
+  return [
+      # a lazy constant and the plain constant as argument of the same cached call
+      {'pool': [('call', 'f', (('t', 5, False),), (), True, False),
+                ('call', 'f', (c(5),), (), True, False)],
+       'ops': [('make', 0, 'direct'), ('make', 1, 'direct'), ('make', 0, 'direct')],
+       'bounds': B},
+      {'pool': [('call', 'f', (), (('k', c('a')),), True, False),
+                ('call', 'f', (), (('k', ('t', 'a', False)),), True, False)],
+       'ops': [('make', 0, 'direct'), ('make', 1, 'pickle'), ('make', 1, 'direct')],
+       'bounds': B},
+      # the docstring examples of lazy_fns.trace: class, call chain, lazy argument
+      {'pool': [('callres', ('call', 'Box', (), (('w', c(1)),), False, False),
+                 (c(3),), (), False, False),
+                ('callres', ('call', 'Box', (), (('w', ('call', 'const7', (), (), False, False)),),
+                             False, False), (c('b'),), (), False, False)],
+       'ops': [('make', 0, 'direct'), ('make', 1, 'direct'), ('make', 0, 'pickle'),
+               ('make', 1, 'loads')],
+       'bounds': B},
+      # lazy_fns_test.test_lazy_object_lazy_result: chains on a lazy result
+      {'pool': [('call', 'Box', (c((1, 2)),), (), False, True),
+                ('attr', ('call', 'Box', (c((1, 2)),), (), False, True), 'w'),
+                ('item', ('callres', ('call', 'Box', (c((1, 2)),), (), False, True),
+                          (c(2),), (), False, False), 0)],
+       'ops': [('make', 0, 'direct'), ('deref', 0, 'direct'), ('make', 1, 'direct'),
+               ('make', 2, 'direct'), ('clear_object',), ('deref', 0, 'direct')],
+       'bounds': B},
+  ]
 
 
 VIAS = ['direct', 'direct', 'rebuild', 'pickle', 'picklez', 'loads', 'explicit_false']
@@ -287,8 +322,13 @@ def run_history(ctx, gen, light=False):
   lazy_fns.clear_object()
   lib.reset_counts()
   if len(fn_lru.data) or len(obj_lru.data) or fn_lru.currsize or obj_lru.currsize:
-    ctx.inconclusive_case('global caches not empty after clear', {'gen': gen})
-    return
+    # clear_cache()/clear_object() must drop everything ("until the cache is cleared").
+    ctx.violation('clear_did_not_empty_cache', {'gen': list(gen)},
+                  {'fn_entries': len(fn_lru.data), 'obj_entries': len(obj_lru.data)},
+                  mechanism='clear/not-empty')
+    for lru in (fn_lru, obj_lru):
+      lru.data.clear()
+      lru.currsize = lru.hits = lru.misses = 0
   fn_lru.maxsize, obj_lru.maxsize = bounds['fn'], bounds['obj']
   model = M.Model(bounds['fn'], bounds['obj'])
   for n in pool:
@@ -309,7 +349,7 @@ def run_history(ctx, gen, light=False):
   evicted = model.fn.evictions + model.obj.evictions
   nontrivial = max_depth >= 2 or evicted > 0
   ctx.case(('c17',) + tuple(gen), nontrivial)
-  ctx.count('trees' if kind == 'tree' else 'histories')
+  ctx.count({'tree': 'trees', 'directed': 'directed_histories'}.get(kind, 'histories'))
   if kind == 'hist_fn':
     ctx.count('hist_fn_bound_128')
   elif kind == 'hist_obj':
@@ -469,6 +509,13 @@ def _run_ops(ctx, lazy_fns, lib, M, model, pool, ops, fn_lru, obj_lru, state,
       ctx.count('value_checks')
       if rres[0] == 'exc':
         e = rres[1]
+        if isinstance(e, AttributeError) and "object has no attribute 'id'" in str(e):
+          # LazyObject.__eq__ reads other.id of a non-LazyObject operand: a cached call
+          # whose argument is trace(v) meets the same call with the plain v.
+          ctx.count('viol:lazyobject-eq-non-lazy-operand')
+          raise _Fail('materialisation_raised',
+                      {'error': f'{type(e).__name__}: {e}', 'want': repr(mres)[:300]},
+                      'lazyobject-eq-non-lazy-operand')
         raise _Fail('unexpected_exception',
                     {'error': f'{type(e).__name__}: {str(e)[:300]}',
                      'model': repr(mres)[:300]},
@@ -677,6 +724,11 @@ def run_chunk(ctx, spec):
     return
   if mode == 'tree':
     check_both_flags(ctx)
+  if mode == 'directed':
+    for i in range(len(_directed_cases())):
+      ctx.count('directed_cases')
+      run_history(ctx, [spec['rseed'], 0, i, 'directed'])
+    return
   for i in range(spec['count']):
     run_history(ctx, [spec['rseed'], spec['index'], i, mode])
 
